@@ -254,7 +254,7 @@ def validate(ctx, sc, tag):
 
 
 def run_s(ctx, binary):
-    n = ctx.q(4, 24)
+    n = ctx.q(3, 12)
     nontriv = 0
     for k in range(n):
         ops = gen_scenario(ctx.rng, ctx.q(7, 10))
@@ -321,9 +321,9 @@ def run(ctx):
         return
     skip_exh = os.environ.get("VERIF_BB_SKIP_EXH") == "1"   # developer switch for mutation runs only (evidence then has no states)
     if not skip_exh:
-        ctx.tlc_check("ManifestFS.tla", "c05_fs_quick.cfg", timeout=1500)
-        ctx.tlc_check("Prune.tla", "c05_prune_quick.cfg", timeout=1500)
-        ctx.tlc_check("Prune.tla", "c05_prunegrace_quick.cfg", timeout=1500)
+        ctx.tlc_check("ManifestFS.tla", "c05_fs_quick.cfg", timeout=3000)
+        ctx.tlc_check("Prune.tla", "c05_prune_quick.cfg", timeout=3000)
+        ctx.tlc_check("Prune.tla", "c05_prunegrace_quick.cfg", timeout=3000)
     if ctx.tier == "thorough" and not skip_exh:
         ctx.tlc_check("ManifestFS.tla", "c05_fs_thorough_a.cfg", timeout=2400, heap="12g")
         ctx.tlc_check("ManifestFS.tla", "c05_fs_thorough_b.cfg", timeout=2400, heap="12g")
@@ -361,7 +361,7 @@ def g_cases(ctx, beh):
 
 
 def run_g(ctx, binary):
-    beh = ctx.tlc_behaviours("Prune.tla", "c05_prune_gen.cfg", num=ctx.q(120, 1200), depth=60)
+    beh = ctx.tlc_behaviours("Prune.tla", "c05_prune_gen.cfg", num=ctx.q(120, 600), depth=60)
     hist = bb.histogram(beh)
     ctx.cov["g_action_histogram"] = dict(hist)
     for a in ("LandCreate", "UpdRead", "UpdLock", "UpdReadUpstream", "UpdRename", "UpdUnlock", "PProbe", "PScan", "PQuiesce", "PLock",
